@@ -9,12 +9,34 @@ import (
 
 var libUsed = map[string]string{}
 
+// library functions that write nothing reachable from the verified code
+var libPure = map[string]bool{
+	"fmt.Errorf": true, "fmt.Sprintf": true, "fmt.Sprint": true, "fmt.Sprintln": true, "errors.New": true,
+	"github.com/tdewolff/parse/v2/strconv.ParseFloat": true, "github.com/tdewolff/parse/v2/strconv.ParseInt": true,
+	"github.com/tdewolff/parse/v2/strconv.ParseUint": true,
+}
+
 func (x *Exec) callLibrary(s *State, fn *types.Func, recv *Term, args []*Term, call *ast.CallExpr) ([]*Term, bool) {
 	if fn.Pkg() == nil {
 		return nil, false
 	}
 	full := fn.FullName()
 	switch full {
+	case "github.com/tdewolff/parse/v2/strconv.ParseFloat", "github.com/tdewolff/parse/v2/strconv.ParseInt", "github.com/tdewolff/parse/v2/strconv.ParseUint":
+		libUsed[full] = "returns (value, n) with 0 <= n <= len(b): the number of bytes consumed (assumed)"
+		v := x.havocResults(s, call)
+		if len(v) == 2 {
+			s.assume(And(Cmp("<=", IntLit(0), v[1]), Cmp("<=", v[1], Field(args[0], 2))))
+		}
+		return v, true
+	case "fmt.Errorf", "errors.New":
+		libUsed[full] = "returns a non-nil error"
+		e := x.freshVar("err", IfaceSort)
+		s.assume(Not(Eq(Field(e, 0), IntLit(0))))
+		return []*Term{e}, true
+	case "fmt.Sprintf", "fmt.Sprint", "fmt.Sprintln":
+		libUsed[full] = "returns some string"
+		return x.havocResults(s, call), true
 	case "sort.Float64s", "sort.Ints", "sort.Strings":
 		// sorts in place: contents of the block become an arbitrary (sorted) permutation: havoc the cells of the slice
 		libUsed[full] = "sorts its argument in place (modelled: cells havoc'd, sortedness assumed)"
